@@ -76,7 +76,7 @@ def _worker(conn, w, cells, msgs, start):
     conn.close()
 
 
-def observe_all(w, cells, msgs, seconds=15):
+def observe_all(w, cells, msgs, seconds=8):
     """run every cell on the real engine in a forked worker.  A modified engine can recurse
     without bound (and swallow asynchronous exceptions in `except <expr>` clauses), so a cell
     that does not answer in time is recorded as non-terminating, the worker is killed and a new
